@@ -8,11 +8,18 @@ Scenario lines (the Lean side is lean/DesperModel/MathExec.lean, generated from 
     callx <fn> <rational>*     exact run with desper.math._math replaced by the rational stand-in
                                interpretation of sqrt/sin/cos/tan/atan2/radians/pi
                                (harness/math_api.py `StandIn`) - translator validation only
+    calle <fn> <int | n/d>*    EXACT-DOMAIN run: the real functions on genuine Python numbers - a bare
+                               integer token is a Python int (also beyond 2**53), `n/d` a
+                               fractions.Fraction (non-dyadic denominators) - with the real `math`
+                               module.  Nothing is converted on the way: an entry of the result that
+                               comes back as a float (the exact inputs were rounded) is written `~v`
+                               with v the exact value of that float.
     callf <fn> <float>*        ordinary float run with the real `math` module (a *test*, judged by the
                                oracle with a tolerance; the model does not compute floats)
     swz <Vec2|Vec3|Vec4> <attrs|-> <rational>*     swizzled attribute access (`__getattr__`)
 
 Observations:  r|rx <fn> <kind> <rational>* [warn]  |  r|rx <fn> raised <Exc>
+               re <fn> <kind> <[~]rational>* [warn]  |  re <fn> raised <Exc>
                rf <fn> <kind> <float repr>* [warn]  |  rf <fn> raised <Exc>
                r swz <cls> <attrs> <kind> <rational>*  |  r swz <cls> <attrs> raised <Exc>
 <fn> names are those of harness/math_api.py `API` (one per public function / operator).
@@ -117,6 +124,22 @@ def show_rat(x):
     return str(Q(x).f)
 
 
+def parse_exact(tok):
+    """Exact-domain argument: `n/d` is a Fraction (also `5/1`), a bare integer a Python int."""
+    return Fraction(tok) if '/' in tok else int(tok)
+
+
+def show_exact(x):
+    """Entry of an exact-domain result: exact types as they are, floats marked."""
+    if isinstance(x, float):
+        return '~' + (str(Fraction(x)) if math.isfinite(x) else repr(x))
+    return str(Fraction(x))
+
+
+def is_plain_scalar(x):
+    return type(x) in (int, float, Fraction)
+
+
 def build_args(M, entry, leaves):
     args, off = [], 0
     for _, kind in entry.params:
@@ -128,7 +151,7 @@ def build_args(M, entry, leaves):
     return args
 
 
-def run_call(M, tag, entry, leaves, show):
+def run_call(M, tag, entry, leaves, show, is_scalar=is_scalar):
     with warnings.catch_warnings(record=True) as w:
         warnings.simplefilter('always')
         try:
@@ -149,7 +172,7 @@ def run_impl(lines):
         t = ln.split()
         if not t:
             continue
-        if t[0] in ('call', 'callx', 'callf'):
+        if t[0] in ('call', 'callx', 'callf', 'calle'):
             entry = API.get(t[1])
             if entry is None:
                 obs.append(f'bad-line {ln}')
@@ -158,6 +181,9 @@ def run_impl(lines):
                 obs.append(run_call(M, 'rf', entry, [float(x) for x in t[2:]], lambda x: repr(float(x))))
             elif t[0] == 'call':
                 obs.append(run_call(M, 'r', entry, [parse_rat(x) for x in t[2:]], show_rat))
+            elif t[0] == 'calle':
+                obs.append(run_call(M, 're', entry, [parse_exact(x) for x in t[2:]], show_exact,
+                                    is_plain_scalar))
             else:
                 restore = math_api.install_shims(M, math_api.StandIn(Q))
                 try:
@@ -167,7 +193,7 @@ def run_impl(lines):
         elif t[0] == 'swz':
             cls = getattr(M, t[1])
             attrs = '' if t[2] == '-' else t[2]
-            v = cls(*[parse_rat(x) for x in t[3:]])
+            v = cls(*[Fraction(x) for x in t[3:]])      # genuine Fractions
             head = f'r swz {t[1]} {t[2]}'
             try:
                 # the public route for real swizzles; the method itself for the strings that the
